@@ -3481,10 +3481,13 @@ class SEVM:
                                 "is assumed to have empty bytecode"
                             )
 
-                        account_code: Contract | ByteVec = (
-                            ex.code.get(account_alias) or ByteVec()
+                        account_code: Contract | None = ex.code.get(account_alias)
+                        # note: Contract.slice takes (start, size), ByteVec.slice takes (start, stop)
+                        codeslice: ByteVec = (
+                            account_code.slice(offset, size)
+                            if account_code is not None
+                            else ByteVec().slice(offset, offset + size)
                         )
-                        codeslice: ByteVec = account_code.slice(offset, size)
                         state.set_mslice(loc, codeslice)
 
                 elif opcode == OP_EXTCODEHASH:
